@@ -506,3 +506,27 @@ Definition trial_g (fd : finder) (choose : nat -> list ix -> costs -> ix) (fuel 
       if already_satisfied fd cost then Ret (ch, ([], cost))
       else trial_loop_g fd choose fuel 0%nat ch [] cost
   end.
+
+(* ------------------------------------------------------------------ *)
+(* target_overhead: the code evaluates `total_flops / original_flops > target` on floats,
+   the model compares exact rationals (over_gt).  over_safe_b is an executable sufficient
+   condition for both to agree (Proofs/SlicerFacts.v over_float_agrees): operands in
+   [1, 2^1000), and the exact quotient is either <= target or exceeds it by more than the
+   relative rounding error 2^-53 of a correctly rounded division. *)
+Definition FB : Z := 2 ^ 1000.
+Definition FP : Z := 2 ^ 53.
+Definition over_safe_b (c : costs) (t : Z * Z) : bool :=
+  let a := cc_total_flops c in
+  let b := c_orig c in
+  (1 <=? a) && (a <? FB) && (1 <=? b) && (b <? FB) && (0 <? snd t)
+  && ((a * snd t <=? fst t * b) || (fst t * b * FP <? a * snd t * (FP - 1))).
+(* every cost object whose overhead the search compared is a cache entry *)
+Definition search_over_safe_b (fd : finder) (oracles : list (list ix)) : bool :=
+  match f_tover fd with
+  | None => true
+  | Some t =>
+      match search_loop fd oracles (cache0 fd) with
+      | Ret (ch, _) => forallb (fun e => over_safe_b (snd e) t) ch
+      | _ => true
+      end
+  end.
